@@ -721,6 +721,15 @@ func (fc *FnCtx) makeIface(st *State, x Val, it types.Type) Val {
 		if x.A.Kind == AObj && len(x.A.Path) == 0 && x.A.Idx == "" || x.A.Kind == AOpaque {
 			return Val{K: KIface, T: it, Tag: tag, S: x.A.Base}
 		}
+		if x.A.Kind == AObj && x.A.Idx == "" {
+			// interior pointer: payload is an injective function of the owning object (opaque when unboxed)
+			p, _ := pathName(x.A.Root, x.A.Path)
+			fn := sanitize("iptr$" + typeName(x.A.Root) + "$" + p)
+			fc.sc.declareFun(fn, []string{"Int"}, "Int")
+			id := sx(fn, x.A.Base)
+			fc.sc.assume(sx(">", id, "0"))
+			return Val{K: KIface, T: it, Tag: tag, S: id}
+		}
 		unsup("interior pointer in interface")
 	case KStruct:
 		ref := fc.newRef(st, "box")
